@@ -70,6 +70,17 @@ def run_pyvc(prop, tier, unbound):
     ctx = mp.get_context('fork')
     with ctx.Pool(min(NPROC, len(todo))) as pool:
       results = pool.map(_verify_worker, [(cid, timeout_ms) for cid in todo], chunksize=1)
+      # second opinion before an obligation of a *changed* function is reported as a violation:
+      # once more with three times the budget (a changed VC may just be slower)
+      base = baseline()
+      again = [r['cid'] for r in results
+               if r['status'] == 'failed' and r.get('hash') and base.get('hashes', {}).get(r['cid'])
+               and base['hashes'][r['cid']] != r['hash']
+               and any(o['verdict'] == 'unknown' for o in r['obligations'])]
+      if again:
+        redo = pool.map(_verify_worker, [(cid, timeout_ms * 3) for cid in again], chunksize=1)
+        byid = {r['cid']: r for r in redo}
+        results = [byid.get(r['cid'], r) for r in results]
   for cid, why in unbound.items():
     if prop in C.REGISTRY[cid].props:
       results.append(dict(cid=cid, status='unbound', reason=why, paths=0, exits={}, time=0,
